@@ -1,22 +1,38 @@
 package server_test
 
 import (
+	"fmt"
 	"testing"
+	"time"
 )
 
 func TestVerifScratch_Q2(t *testing.T) {
 	env := vq2Start()
 	defer env.Close()
-	m := &vq2Model{Track: true, exist: vq2Set{}}
-	m.addField(&vq2Field{Name: "n1", Kind: "int", Min: 0, Max: 1000})
-	idx := env.create(t, "scr", m)
-	for _, q := range []string{"Set(1, n1=0)", "Set(2, n1=3)", "Set(3, n1=999)", "Row(n1 <= 0)", "Row(n1 < 1)", "Row(n1 > 0)", "Row(n1 >= 0)","Row(n1 == 0)","Row(n1 != 0)","Row(0 < n1 < 5)","Row(0 <= n1 < 5)","Row(-1 <= n1 <= 0)","Row(-1 < n1 < 0)", "Row(0 < n1 < 0)", "Row(0 <= n1 <= 0)", "Row(n1 > 1000)", "Row(n1 >= 1001)", "Row(n1 < 5000)", "Row(n1 > 5000)", "Row(n1 == 5000)", "Row(n1 != 5000)", "Row(999 < n1 < 5000)", "Row(999 <= n1 < 5000)"} {
-		rs, err := env.query(idx, q)
-		t.Logf("%s => %v %v", q, rs, err)
-		if err == nil {
-			if r, ok := rs[0].(interface{ Columns() []uint64 }); ok {
-				t.Logf("   cols %v", r.Columns())
-			}
+	for i := 0; i < 5; i++ {
+		m := &vq2Model{Track: true, exist: vq2Set{}}
+		m.addField(&vq2Field{Name: "s1", Kind: "set"})
+		m.addField(&vq2Field{Name: "s2", Kind: "set"})
+		m.addField(&vq2Field{Name: "t1", Kind: "time", Quantum: "YMDH"})
+		m.addField(&vq2Field{Name: "n1", Kind: "int", Min: 0, Max: 1000})
+		m.addField(&vq2Field{Name: "m1", Kind: "mutex"})
+		t0 := time.Now()
+		idx := env.create(t, "scr", m)
+		t1 := time.Now()
+		q := ""
+		for j := 0; j < 10; j++ {
+			q += fmt.Sprintf("Set(%d, s1=%d) Set(%d, s2=1) Set(%d, t1=1, 2017-01-01T00:00) Set(%d, n1=5) Set(%d, m1=3)", j*500000, j%3, j*400000, j*300000, j*700000, j*200000)
 		}
+		env.query(idx, q)
+		t2 := time.Now()
+		for j := 0; j < 10; j++ {
+			env.query(idx, "Union(Row(s1=1), Intersect(Row(s2=1), Row(t1=1)), Not(Row(m1=3)))")
+		}
+		t3 := time.Now()
+		env.query(idx, "Store(Row(s1=1), s2=5)")
+		t4 := time.Now()
+		env.drop(idx)
+		t5 := time.Now()
+		t.Logf("create %v load %v 10 queries %v store %v drop %v", t1.Sub(t0), t2.Sub(t1), t3.Sub(t2), t4.Sub(t3), t5.Sub(t4))
 	}
 }
